@@ -6,23 +6,23 @@ import FontcProofs.Rounding
 namespace Fontc.Casts
 open Fontc
 
-theorem i16Round_pipeline (f : Field) (h : isI16Round f = true) (v : Rat) (p : Profile) :
-    fieldPipeline f v p = .ok (otRoundI16 v : Int) ∧ ideal f v = (otRound v : Int) ∧
+theorem i16Round_pipeline_old (f : Field) (h : isI16Round f = true) (v : Rat) (p : Profile) :
+    fieldPipelineOld f v p = .ok (otRoundI16 v : Int) ∧ ideal f v = (otRound v : Int) ∧
     (Representable f v ↔ inI16 (otRound v)) := by
   cases f <;> simp [isI16Round] at h <;> exact ⟨rfl, rfl, Iff.rfl⟩
 
-theorem u16Round_pipeline (f : Field) (h : isU16Round f = true) (v : Rat) (p : Profile) :
-    fieldPipeline f v p = .ok (otRoundU16 v : Int) ∧ ideal f v = (otRound v : Int) ∧
+theorem u16Round_pipeline_old (f : Field) (h : isU16Round f = true) (v : Rat) (p : Profile) :
+    fieldPipelineOld f v p = .ok (otRoundU16 v : Int) ∧ ideal f v = (otRound v : Int) ∧
     (Representable f v ↔ inU16 (otRound v)) := by
   cases f <;> simp [isU16Round] at h <;> exact ⟨rfl, rfl, Iff.rfl⟩
 
 /-- Boundary map of an i16-rounded field. -/
-theorem boundary_i16Round (f : Field) (h : isI16Round f = true) (v : Rat) (p : Profile) :
+theorem boundary_i16Round_old (f : Field) (h : isI16Round f = true) (v : Rat) (p : Profile) :
     (Representable f v ↔ (-32768 - 1/2 : Rat) ≤ v ∧ v < 32767 + 1/2) ∧
-    fieldPipeline f 32767 p = .ok 32767 ∧ fieldPipeline f (-32768) p = .ok (-32768) ∧
-    ((32767 + 1/2 : Rat) ≤ v → fieldPipeline f v p = .ok 32767) ∧
-    (v < (-32768 - 1/2 : Rat) → fieldPipeline f v p = .ok (-32768)) := by
-  have hp := fun w => (i16Round_pipeline f h w p)
+    fieldPipelineOld f 32767 p = .ok 32767 ∧ fieldPipelineOld f (-32768) p = .ok (-32768) ∧
+    ((32767 + 1/2 : Rat) ≤ v → fieldPipelineOld f v p = .ok 32767) ∧
+    (v < (-32768 - 1/2 : Rat) → fieldPipelineOld f v p = .ok (-32768)) := by
+  have hp := fun w => (i16Round_pipeline_old f h w p)
   refine ⟨?_, ?_, ?_, ?_, ?_⟩
   · rw [(hp v).2.2, inI16_otRound_iff]
   · rw [(hp 32767).1]
@@ -44,12 +44,12 @@ theorem boundary_i16Round (f : Field) (h : isI16Round f = true) (v : Rat) (p : P
       omega
     simp [otRoundI16, satI16_below this]
 
-theorem boundary_u16Round (f : Field) (h : isU16Round f = true) (v : Rat) (p : Profile) :
+theorem boundary_u16Round_old (f : Field) (h : isU16Round f = true) (v : Rat) (p : Profile) :
     (Representable f v ↔ (-1/2 : Rat) ≤ v ∧ v < 65535 + 1/2) ∧
-    fieldPipeline f 65535 p = .ok 65535 ∧ fieldPipeline f 0 p = .ok 0 ∧
-    ((65535 + 1/2 : Rat) ≤ v → fieldPipeline f v p = .ok 65535) ∧
-    (v < (-1/2 : Rat) → fieldPipeline f v p = .ok 0) := by
-  have hp := fun w => (u16Round_pipeline f h w p)
+    fieldPipelineOld f 65535 p = .ok 65535 ∧ fieldPipelineOld f 0 p = .ok 0 ∧
+    ((65535 + 1/2 : Rat) ≤ v → fieldPipelineOld f v p = .ok 65535) ∧
+    (v < (-1/2 : Rat) → fieldPipelineOld f v p = .ok 0) := by
+  have hp := fun w => (u16Round_pipeline_old f h w p)
   refine ⟨?_, ?_, ?_, ?_, ?_⟩
   · rw [(hp v).2.2, inU16_otRound_iff]
   · rw [(hp 65535).1]
